@@ -209,8 +209,8 @@ def _one_hop(app_key, kind_i, seg_i, seg2_i, lead, mid, trail, qs_i, method_i):
     qs = QS[qs_i]
     method = METHODS[method_i]
     cl = app.get_local_client()
-    if kind == 'mixed' and method not in ('GET', 'HEAD'):
-        return True
+    if kind == 'mixed' and (method not in ('GET', 'HEAD') or app_key != S_REDIRECT):
+        return True          # the POST-branch/GET-leaf pair is about redirects: redirect-mode application, GET and HEAD
     # earlier requests on the same application must not matter: the same path with ANOTHER query string, and a method
     # that no route on this path admits (405)
     cl.open(path, method=method, query_string=QS[(qs_i + 1) % len(QS)])
